@@ -12,6 +12,9 @@ OBLIGATIONS.append(dict(id='C02.quoted.literal', engine='V', verus_fn='Parser::p
 OBLIGATIONS.append(ob('C02.literal.coercion', 'function::verif_kani::c02_literal_units', 'the real Variant::to_int on literals with a size unit (2k, 1kb) and on a non-number (3 witnesses)', engine='K', units=['variant'], complete=False, bound='3 concrete literals'))
 OBLIGATIONS.append(ob('C02.bool.literal', 'function::verif_kani::c02_bool_literals', 'the real Variant::to_bool on true/false/1/0/yes/no in several casings (9 witnesses)', engine='K', units=['variant'], complete=False, bound='9 concrete literals'))
 OBLIGATIONS.append(ob('C02.operands', 'verif_frag::evalshim::c02_operands', 'operand evaluation of a comparison in conforms (verbatim statements on a shim world): field value from the LEFT expression, literal from the RIGHT, each evaluated once with its own empty cache map', units=['evalshim'], complete=False, bound='1 concrete comparison'))
+for _n in ['eq', 'ne', 'eeq', 'ene', 'gt', 'gte', 'lt', 'lte', 'rx', 'notrx', 'like', 'notlike', 'between']:
+    OBLIGATIONS.append(ob(f'C02.op.table.{_n}', OPS + f'c11_op_{_n}', f'Op::from maps every documented spelling of the operator `{_n}` to that operator (same harness as C11.alias.op.{_n})', engine='K', units=['operators']))
+OBLIGATIONS.append(ob('C02.op.negation', OPS + 'c03_negate_contract', 'each negative operator is the documented complement of its positive counterpart: contract of Op::negate (same as C03.negate.pairs)', engine='K', units=['operators'], twin=OPS + 't03_negate_pairs'))
 CANARIES = [dict(harness=CMP + 'canary_cmp_must_fail', units=['cmp'])]
 ASSUMPTIONS = ['float arm: stated for non-NaN operands', 'date arm: start <= finish']
 NOT_COVERED = ['get_field_value: which attribute is compared', 'literal -> number coercion (Variant::to_int / to_float, parse_filesize as a whole)', 'string arm (regex)', 'type dispatch on field_value.get_type()']
